@@ -278,7 +278,7 @@ def line_twin(s: str, n: int, bi: int, usenull: bool, p1: str, p2: str, n2: int,
 
 def conditions(tier):
     quick = tier == "quick"
-    t = 100 if quick else 1500
+    t = 100 if quick else 600
     conds = []
     for sk in sorted(pfmt.SKELS):
         for sp in range(4):
